@@ -24,7 +24,8 @@ MANIFEST = {
     'technique': ('resource typestate (open/closed long-running operation) by abstract '
                   'interpretation over an exception-aware CFG of the servicer RPCs; '
                   'handler coverage decided with the exception-class lattice'
-                  '; retry-loop boundedness and exception-swallowing rules over every algorithm call site (pythia service, default seeding, policies, servicer); alias tracking of operation messages; shared C01.R1/R2, C02.R3, C04.R2'),
+                  '; retry-loop boundedness and exception-swallowing rules over every algorithm call site (pythia service, default seeding, policies, servicer); alias tracking of operation messages; shared C01.R1/R2, C02.R3, C04.R2'
+                  '; raise model extended with format calls on run-time templates inside handlers; poll loop as edge-blocked reachability'),
     'level_text': (
         'Static: for SuggestTrials and CheckTrialEarlyStoppingState, on every path '
         '(including every exceptional edge out of the algorithm call, the metadata write, '
